@@ -216,6 +216,29 @@ def r3_tables(ctx, F):
                               'tables disagree' % (path, v, sorted(facts), w))
 
 
+def option_field_unwrapped(pb, pv, field):
+    """value pv of body pb is the payload of `options<field>.map(NonZeroUsize::get)` - the call itself, or its
+    normal form (A12: `match x { Some(n) => Some(n.get()), None => None }`)"""
+    from taint import vals_of
+    pv = noref(pv)
+    pc = pb.call_at(pv.key) if pv.kind == 'call' else None
+    if pc is not None and pc.is_('Option::map') and len(pc.args) == 2:
+        return str(pc.args[1].get('fn', '')).endswith('NonZero::<T>::get') and \
+            noref(pb.val(pc.args[0])).fields()[-1:] == (field,)
+    vs = vals_of(pb, pv) if pv.kind == 'local' else {pv}
+    if not vs:
+        return False
+    for x in vs:
+        x = noref(x)
+        gc = pb.call_at(x.key) if x.kind == 'call' and not x.fields() else None
+        if gc is None or not gc.is_('NonZero::get'):
+            return False
+        src = set(noref(y) for y in vals_of(pb, noref(pb.val(gc.args[0]))))
+        if not src or not all(field in y.fields() for y in src):
+            return False
+    return True
+
+
 def sanctioned_worker_exits(F, sp):
     """(label, edges) list of the sanctioned exits of a worker closure"""
     w = sp.worker
@@ -264,12 +287,9 @@ def sanctioned_worker_exits(F, sp):
         # captured as Option<usize>
         from common import capture_origin
         pb, pv = capture_origin(F, w, noref(v))
-        pc = pb.call_at(pv.key) if pv.kind == 'call' and pb is not w else None
-        if pc is None or not pc.is_('Option::map') or len(pc.args) != 2:
+        if pb is w:
             return False
-        if not str(pc.args[1].get('fn', '')).endswith('NonZero::<T>::get'):
-            return False
-        return noref(pb.val(pc.args[0])).fields()[-1:] == ('.target_state_count',)
+        return option_field_unwrapped(pb, pv, '.target_state_count')
     tsc = edges_where(w, lambda v: src_is(v, 'NonZero::get') or unwrapped_target(v), lambda v: src_is(v, 'load'), 'le')
     if tsc:
         out.append(('target_state_count', tsc))
